@@ -51,6 +51,9 @@ func loadJSON(path string, v any) error {
 	return json.Unmarshal(b, v)
 }
 
+// devRun: a filtered or exploratory run (its evidence goes to out/evidence-dev).
+var devRun bool
+
 func main() {
 	if len(os.Args) < 2 {
 		fmt.Fprintln(os.Stderr, "usage: govc check|baseline|dump|ssa ...")
@@ -74,6 +77,7 @@ func main() {
 	switch cmd {
 	case "check", "baseline", "dump":
 		claimEverything = *claimAll
+		devRun = *claimAll || *fnFilter != "" || *oblFilter != "" || cmd != "check"
 		os.Exit(runCheck(cmd, *prop, *tier, *fnFilter, *oblFilter, *verbose))
 	case "selftest":
 		os.Exit(runSelftest(*prop, *fnFilter, *verbose))
